@@ -969,27 +969,41 @@ def check_soc(cfg, seed=0, max_regs=None):
 SIZES = (1, 2, 7, 8, 9, 16, 17, 31, 32, 33, 40, 48, 63, 64, 65, 70)
 
 
-def gen_periph(rng, name, csr_dw, max_regs=6):
+ARCHETYPES = (
+    ("storage", (1, 8, 31, 32), False), ("storage", (33, 40, 48, 63, 64), False), ("storage", (33, 40, 64), True),
+    ("storage", (65, 70), True), ("storage", (65, 70), False), ("status", (33, 64), False), ("status", (1, 32), False),
+    ("status", (65, 70), False), ("storage", (2, 7, 9, 16, 17), True), ("fields", (), False), ("any", (), False),
+    ("any", (), False),
+)
+
+
+def gen_reg(rng, k, arch):
+    kind, sizes, atomic = arch
+    if kind == "any":
+        kind = "storage" if rng.random() < 0.7 else "status"
+        sizes = (rng.randint(1, 70),)
+        atomic = rng.random() < 0.3
+    if kind == "fields":
+        fs, off = [], 0
+        for fi in range(rng.randint(1, 3)):
+            off += rng.randint(0, 3)
+            sz = rng.randint(1, 9)
+            fs.append({"name": "f%d" % fi, "size": sz, "offset": off})
+            off += sz
+        return {"kind": "storage", "name": "r%d" % k, "size": off, "fields": fs, "atomic": False}
+    r = {"kind": kind, "name": "r%d" % k, "size": rng.choice(sizes)}
+    if kind == "storage":
+        r["atomic"] = atomic
+        if rng.random() < 0.3:
+            r["reset"] = rng.getrandbits(r["size"])
+    return r
+
+
+def gen_periph(rng, name, csr_dw, max_regs=6, deck=None):
     regs = []
     for k in range(rng.randint(1, max_regs)):
-        size = rng.choice(SIZES) if rng.random() < 0.6 else rng.randint(1, 70)
-        kind = "storage" if rng.random() < 0.7 else "status"
-        r = {"kind": kind, "name": "r%d" % k, "size": size}
-        if kind == "storage":
-            r["atomic"] = rng.random() < 0.3
-            if rng.random() < 0.3:
-                r["reset"] = rng.getrandbits(size)
-            if rng.random() < 0.12:
-                fs, off = [], 0
-                for fi in range(rng.randint(1, 3)):
-                    off += rng.randint(0, 3)
-                    sz = rng.randint(1, 9)
-                    fs.append({"name": "f%d" % fi, "size": sz, "offset": off})
-                    off += sz
-                r["fields"] = fs
-                r["size"] = off
-                r.pop("reset", None)
-        regs.append(r)
+        arch = deck.pop() if deck else rng.choice(ARCHETYPES)
+        regs.append(gen_reg(rng, k, arch))
     p = {"name": name, "regs": regs}
     if rng.random() < 0.15 and len(regs) >= 2:
         # one register pinned at a location of its own inside the bank (`n=`), beyond the natural positions
@@ -1017,8 +1031,10 @@ def gen_cfg(rng, **fixed):
     cfg.setdefault("csr_origin", rng.choice((0, 0xf0000000, 0x82000000, size * rng.randint(1, 200))))
     nlocs = size // cfg["paging"]
     periphs, used = [], set()
-    for k in range(rng.randint(1, 4)):
-        p = gen_periph(rng, "p%d" % k, cfg["csr_dw"], fixed.get("max_regs", 6))
+    deck = list(ARCHETYPES)
+    rng.shuffle(deck)
+    for k in range(rng.randint(2, 4)):
+        p = gen_periph(rng, "p%d" % k, cfg["csr_dw"], fixed.get("max_regs", 6), deck)
         if rng.random() < 0.3:
             loc = rng.choice((nlocs - 1, rng.randrange(nlocs), rng.randrange(min(nlocs, 8))))
             if loc not in used:
